@@ -16,6 +16,7 @@ import (
 	"github.com/truora/minidyn/core"
 	"github.com/truora/minidyn/interpreter"
 	coretypes "github.com/truora/minidyn/types"
+	"github.com/truora/minidyn/verifhook"
 )
 
 const (
@@ -147,6 +148,8 @@ func (fd *Client) CreateTable(input *dynamodb.CreateTableInput) (*dynamodb.Creat
 		return nil, err
 	}
 
+	verifhook.At("client.createTable.beforeRegister")
+
 	fd.tables[tableName] = newTable
 
 	return &dynamodb.CreateTableOutput{
@@ -176,6 +179,8 @@ func (fd *Client) DeleteTable(input *dynamodb.DeleteTableInput) (*dynamodb.Delet
 	}
 
 	desc := table.Description(tableName)
+
+	verifhook.At("client.deleteTable.beforeRemove")
 
 	delete(fd.tables, tableName)
 
@@ -584,6 +589,8 @@ func (fd *Client) BatchWriteItem(input *dynamodb.BatchWriteItemInput) (*dynamodb
 
 	for table, reqs := range input.RequestItems {
 		for _, req := range reqs {
+			verifhook.At("client.batchWrite.nextRequest")
+
 			err := executeBatchWriteRequest(fd, aws.String(table), req)
 
 			err = handleBatchWriteRequestError(table, req, unprocessed, err)
